@@ -72,6 +72,7 @@ func (mapVacuum *MapVacuum[K, V]) vacuumInBackground() {
 		for mapVacuum.active {
 			mapVacuum.vacuum()
 			mapVacuum.clock.Sleep(mapVacuum.tick)
+			verifhook.Point("vacuum.wake", "name", mapVacuum.name)
 		}
 	}()
 }
